@@ -108,8 +108,10 @@ func admissionCheck(r *vk.Run, c *vk.Case, cfg immunitycache.CacheConfig, rng *v
 func main() {
 	_ = logger.SetLogLevel("*:NONE")
 	r := vk.Start("C27")
-	r.Rule("per case one configuration over NumChunks {1,2,3,7,16,128} x MaxNumItems 4..40 x MaxNumBytes 4..4000 x evict 1..10 (mostly not multiples of the chunk count; some invalid to exercise Verify); for accepted ones: admission check on a fresh cache (4x capacity fresh keys, none immune) and a random history of HasOrAdd/Put, ImmunizeKeys (present and future keys, single and batches), Remove, Clear, Get over 30..80 keys with the per-chunk invariants read through VerifChunkStats after every operation. A case is non-trivial when its history saw at least one eviction with an immune item present; distinct = (chunk count, divisibility class, set of events seen). concurrent phase: many short rounds, each with a roomy accepted configuration, 1..3 immunizer goroutines calling ImmunizeKeys on batches of 1..6 keys while 1..4 adder goroutines HasOrAdd/Put exactly those keys (one adder and one ImmunizeKeys call per key; sometimes a remover and a phantom immunizer that uses up the immune-key budget), then a flood of 3x capacity fresh keys per chunk; a round is non-trivial when both orders (immunized when present / for the future) were observed. wrapper phase: per case one real shardedData (capacity 6..40, 1..4 shards, 2..5 cacheIDs) and one real CrossTxCache driven with AddData/AddTx, immunization of present and future keys incl. cacheIDs that have no store yet, removals, ClearShardStore, MergeShardStores, floods of 6x capacity fresh items; immune and present items are looked up after every operation and after a final flood of every cacheID; non-trivial when at least one immune item was checked after the final flood")
+	r.Rule("per case one configuration over NumChunks {1,2,3,7,16,128} x MaxNumItems 4..40 x MaxNumBytes 4..4000 x evict 1..10 (mostly not multiples of the chunk count; some invalid to exercise Verify); for accepted ones: admission check on a fresh cache (4x capacity fresh keys, none immune) and a random history of HasOrAdd/Put, ImmunizeKeys (present and future keys, single and batches), Remove, Clear, Get over 30..80 keys with the per-chunk invariants read through VerifChunkStats after every operation. A case is non-trivial when its history saw at least one eviction with an immune item present; distinct = (chunk count, divisibility class, set of events seen). concurrent phase: many short rounds, each with a roomy accepted configuration, 1..3 immunizer goroutines calling ImmunizeKeys on batches of 1..6 keys while 1..4 adder goroutines HasOrAdd/Put exactly those keys (one adder and one ImmunizeKeys call per key; sometimes a remover and a phantom immunizer that uses up the immune-key budget), then a flood of 3x capacity fresh keys per chunk; a round is non-trivial when both orders (immunized when present / for the future) were observed. wrapper phase: per case one real shardedData (capacity 6..40, 1..4 shards, 2..5 cacheIDs) and one real CrossTxCache driven with AddData/AddTx, immunization of present and future keys incl. cacheIDs that have no store yet, removals, ClearShardStore, MergeShardStores, floods of 6x capacity fresh items; immune and present items are looked up after every operation and after a final flood of every cacheID; non-trivial when at least one immune item was checked after the final flood. same-key storm phase: per case one long-lived roomy cache and 6..14 waves; in a wave 3..8 goroutines, released together by a spinning barrier in front of every key, all HasOrAdd the same 2..4 hot keys (fresh, removed after an earlier wave, sometimes still present) while readers and an ImmunizeKeys call for those keys run along; removals and announced-then-undone immunities between the waves; quiescent-point checks after every wave and after a final flood; non-trivial when an immune key was checked after the flood")
 	r.Assume("\"marked immune\" is taken from the return values of ImmunizeKeys (a refused call returns 0,0 and marks nothing); Remove also drops a pending future immunity; Clear drops everything",
+		"the immunities held by the cache (present or future) are the keys of accepted ImmunizeKeys calls that were not removed or cleared since: CountImmune() equals their number, only their items are flagged immune, and ImmunizeKeys may refuse (0,0) only when that number plus the batch length exceeds MaxNumItems",
+		"same-key storms: the configuration leaves room for every key of the case; a HasOrAdd call answers has=false,added=true iff it put the key into the cache, so for concurrent calls on one absent key exactly one answers added; Count() and NumBytes() at a quiescent point are the number and the total size of the keys admitted and not removed; not replay-deterministic",
 		"byte bound is read at admission time: per chunk, non-immune bytes minus the size of the most recently admitted item stay below the per-chunk byte limit",
 		"per-chunk limits are read from the cache through the verif hook (never recomputed), so the bounds stay valid if the limits are rounded up",
 		"item sizes are >= 1",
@@ -171,6 +173,7 @@ func main() {
 		sizeMode := rng.Intn(3)
 		immuneBias := rng.Range(1, 4)
 		failed := false
+		uncertain := false // a partial ImmunizeKeys answer was seen: the set of held immunities is no longer known
 		report := func(key, what string) {
 			tr := trace
 			if len(tr) > 400 {
@@ -217,8 +220,14 @@ func main() {
 				} else if nn == 0 && nf == 0 {
 					events["immunize-refused"] = true
 					r.Count("immunize_calls_refused", 1)
+					// the only documented reason to refuse: immunities held + batch above MaxNumItems. The immunities held
+					// are the accepted ones that were not undone by Remove / Clear since (present or not).
+					if !uncertain && len(marked)+len(keys) <= int(cfg.MaxNumItems) {
+						report("immunize-refused-below-immune-capacity", fmt.Sprintf("ImmunizeKeys(%s) was refused although only %d immunities are held (accepted and not undone by Remove/Clear) and %d + %d <= MaxNumItems %d; CountImmune() says %d", strings.Join(ks, ","), len(marked), len(marked), len(keys), cfg.MaxNumItems, cache.CountImmune()))
+					}
 				} else {
 					r.Count("obs_immunize_partial_answer", 1) // nothing is taken as marked
+					uncertain = true
 				}
 			case p < 6*immuneBias+10: // Remove
 				cache.Remove([]byte(k))
@@ -226,6 +235,10 @@ func main() {
 				r.Count("op_remove", 1)
 				if marked[k] {
 					events["remove-immune"] = true
+					if !present[k] && !cache.Has([]byte(k)) {
+						events["remove-future-immunity"] = true
+						r.Count("future_immunities_undone_by_remove", 1)
+					}
 				}
 				delete(marked, k)
 				delete(present, k)
@@ -237,6 +250,7 @@ func main() {
 				marked = map[string]bool{}
 				present = map[string]bool{}
 				lastAdmitted = map[int]int{}
+				uncertain = false
 			case p < 6*immuneBias+18: // Get
 				_, ok := cache.Get([]byte(k))
 				trace = append(trace, fmt.Sprintf("%d Get(%s) -> %v", step, k, ok))
@@ -292,6 +306,15 @@ func main() {
 					events["add-refused"] = true
 					// continued admission: a refusal is only legitimate when the chunk had no non-immune item to evict
 					bc := before[ci]
+					evictable := 0 // items of the chunk nobody holds immune (per the model, not per the cache's own flags)
+					for _, it := range bc.Items {
+						if !marked[it.Key] {
+							evictable++
+						}
+					}
+					if !degenerate && !uncertain && evictable > 0 && bc.NumItems-bc.NumImmuneItems == 0 {
+						report("refused-with-evictable-items", fmt.Sprintf("HasOrAdd(%s) was refused although its chunk %d held %d items whose immunity was never requested or was undone by Remove (the cache flags all %d items immune)", k, ci, evictable, bc.NumItems))
+					}
 					if !degenerate && bc.NumItems-bc.NumImmuneItems > 0 {
 						report("refused-with-evictable-items", fmt.Sprintf("HasOrAdd(%s) was refused although its chunk %d held %d non-immune items (items %d/%d, bytes %d/%d, evict %d)", k, ci, bc.NumItems-bc.NumImmuneItems, bc.NumItems, bc.MaxNumItems, bc.NumBytes, bc.MaxNumBytes, bc.NumItemsToPreemptivelyEvict))
 					}
@@ -353,13 +376,22 @@ func main() {
 					present[kk] = true
 				}
 			}
-			// every present marked key must carry the flag
+			// every present marked key must carry the flag, and only those; the immunities held (present and future) are
+			// the accepted ones that were not undone by Remove / Clear
+			held := 0
 			for _, ch := range after {
+				held += ch.NumImmuneKeys
 				for _, it := range ch.Items {
 					if marked[it.Key] && !it.Immune {
 						report("marked-item-not-flagged", fmt.Sprintf("key %s is marked immune (ImmunizeKeys accepted) but its item is not flagged immune", it.Key))
 					}
+					if !marked[it.Key] && it.Immune && !uncertain && !failed {
+						report("item-immune-without-held-immunity", fmt.Sprintf("key %s is flagged immune after step %d although its immunity was never accepted or was undone by Remove/Clear before the item arrived (config %s)", it.Key, step, cfgString(cfg)))
+					}
 				}
+			}
+			if !failed && !uncertain && (held != len(marked) || cache.CountImmune() != len(marked)) {
+				report("held-immunities-mismatch", fmt.Sprintf("after step %d the cache holds %d immunities (CountImmune() %d), but %d keys were immunized by accepted calls and not undone by Remove/Clear (config %s)", step, held, cache.CountImmune(), len(marked), cfgString(cfg)))
 			}
 			if p >= 6*immuneBias+18 && evictedNow > 0 {
 				r.Count("evictions", evictedNow)
@@ -411,7 +443,8 @@ func main() {
 	wrapCases := r.N(600, 12000)
 	wrapOps := r.N(150, 300)
 	firstWrap := cases + concCases
-	if r.ReplayCase < 0 || r.ReplayCase >= firstWrap {
+	firstStorm := firstWrap + wrapCases
+	if r.ReplayCase < 0 || (r.ReplayCase >= firstWrap && r.ReplayCase < firstStorm) {
 		r.Parallel(firstWrap+wrapCases, func(c *vk.Case) {
 			if c.Idx < firstWrap {
 				return
@@ -419,6 +452,22 @@ func main() {
 			shardedDataHistory(r, c, wrapOps)
 			crossTxCacheHistory(r, c, wrapOps)
 		})
+	}
+	// same-key storm phase (see storm.go): the same absent key added by several goroutines at the same moment
+	stormCases := r.N(160, 3000)
+	if r.ReplayCase < 0 || r.ReplayCase >= firstStorm {
+		r.ParallelW(firstStorm+stormCases, 4, func(c *vk.Case) {
+			if c.Idx < firstStorm {
+				return
+			}
+			stormCase(r, c)
+		})
+	}
+	if r.ReplayCase < 0 && r.Counter("storm_races_on_an_absent_key") < int64(stormCases*6) {
+		r.Inconclusive(fmt.Sprintf("only %d same-key races on an absent key were run", r.Counter("storm_races_on_an_absent_key")))
+	}
+	if r.ReplayCase < 0 && r.Counter("future_immunities_undone_by_remove") < int64(cases/10) {
+		r.Inconclusive(fmt.Sprintf("only %d future immunities were undone by Remove before the item arrived", r.Counter("future_immunities_undone_by_remove")))
 	}
 	if r.ReplayCase < 0 && r.Counter("sd_future_immunity_applied_never_seen_cacheid") < int64(wrapCases/10) {
 		r.Inconclusive("too few items immunized through shardedData before their cacheID had a store")
